@@ -46,6 +46,10 @@ pub fn owner_scripts() -> Vec<(&'static str, Vec<Op>)> {
         // part of the final state
         ("send-joinstart-drop-owner-await", vec![Op::Send(o, 901), Op::Send(o, 902), Op::JoinStart(o), Op::Drop(o), Op::JoinAwait(0)]),
         ("joinstart-send-drop-owner-await", vec![Op::JoinStart(o), Op::Send(o, 903), Op::Call(o, 904), Op::Send(o, 905), Op::Drop(o), Op::JoinAwait(0)]),
+        // the owner is detached while a join future exists (created only, or already in flight):
+        // the future still yields the actor - nobody else can
+        ("joinstart-detach-await", vec![Op::JoinStart(o), Op::Detach(o), Op::Call(H::Addr(0), 906), Op::JoinAwait(0)]),
+        ("joinstart-polled-detach-await", vec![Op::JoinStart(o), Op::JoinPollOnce(0), Op::Detach(o), Op::Call(H::Addr(0), 907), Op::JoinAwait(0)]),
         // two joins pending at the same time in two different tasks (the second future is handed
         // to a helper client, which awaits it; the stopper comes later): both resolve when the
         // actor terminates, one of them with the value
